@@ -229,26 +229,31 @@ func (m *StringifiedMessage) encode(d *Decoder, sb *strings.Builder, tagType byt
 }
 
 func writeEscapeStr(sb *strings.Builder, str string) {
+	// The empty string must be quoted.
+	needQuote := str == ""
 	for _, v := range []byte(str) {
 		if !isAllowedInUnquotedString(v) {
-			// need quote
-			dc := strings.Count(str, `"`)
-			sc := strings.Count(str, `'`)
-			if dc > sc {
-				sb.WriteString("'")
-				if _, err := strings.NewReplacer(`'`, `\'`, `\`, `\\`).WriteString(sb, str); err != nil {
-					panic(err)
-				}
-				sb.WriteString("'")
-			} else {
-				sb.WriteString(`"`)
-				if _, err := strings.NewReplacer(`"`, `\"`, `\`, `\\`).WriteString(sb, str); err != nil {
-					panic(err)
-				}
-				sb.WriteString(`"`)
-			}
-			return
+			needQuote = true
+			break
 		}
 	}
-	sb.WriteString(str)
+	if !needQuote {
+		sb.WriteString(str)
+		return
+	}
+	dc := strings.Count(str, `"`)
+	sc := strings.Count(str, `'`)
+	if dc > sc {
+		sb.WriteString("'")
+		if _, err := strings.NewReplacer(`'`, `\'`, `\`, `\\`).WriteString(sb, str); err != nil {
+			panic(err)
+		}
+		sb.WriteString("'")
+	} else {
+		sb.WriteString(`"`)
+		if _, err := strings.NewReplacer(`"`, `\"`, `\`, `\\`).WriteString(sb, str); err != nil {
+			panic(err)
+		}
+		sb.WriteString(`"`)
+	}
 }
